@@ -22,6 +22,11 @@ var models = map[string]*model{}
 
 func reg(name, desc string, f modelFn) { models[name] = &model{f: f, desc: desc, pure: true} }
 
+// regEff registers a model with heap effects (not usable inside loops without a loop frame).
+func regEff(name, desc string, f modelFn) { models[name] = &model{f: f, desc: desc, pure: false} }
+
+const digestStreamField = 9001
+
 func pureModel(full string) bool {
 	m, ok := models[full]
 	return ok && m.pure
@@ -305,6 +310,73 @@ func init() {
 		ok := UF("netip.parsePrefix.ok", SBool, s)
 		return []Val{ufVal("netip.parsePrefix.v", sig.Results().At(0).Type(), s), iteVal(ok, nilIface(), ex.nonNilErr("ipprefix", s))}
 	})
+	// ---- maps.Clone: nil stays nil, otherwise a fresh map with the same entries
+	regEff("maps.Clone", "nil for nil; otherwise a new map with exactly the same entries", func(ex *Exec, a []Val, st *State, sig *types.Signature) []Val {
+		m := tm(a[0])
+		mt, ok := sig.Results().At(0).Type().Underlying().(*types.Map)
+		if !ok {
+			unsupp("maps.Clone of non-map")
+		}
+		n := ex.newObj()
+		ks := mapKeySort(mt)
+		dn, ds := mdomName(ks)
+		dom := st.heap.array(dn, ds)
+		st.heap.set(dn, Store(dom, n, Select(dom, m)))
+		for _, l := range typeLeaves(mt.Elem(), "", nil) {
+			vn, vs := mvalName(ks, l.path, l.sort)
+			arr := st.heap.array(vn, vs)
+			st.heap.set(vn, Store(arr, n, Select(arr, m)))
+		}
+		la := st.heap.array(mlenName, mlenSort)
+		st.heap.set(mlenName, Store(la, n, Select(la, m)))
+		return []Val{Ite(Eq(m, Null()), Null(), n)}
+	})
+	// ---- xxhash: the digest is a byte stream; Sum64 is an uninterpreted function of it (collisions ignored)
+	xx := "github.com/cespare/xxhash/v2."
+	regEff(xx+"New", "fresh digest with empty stream", func(ex *Exec, a []Val, st *State, sig *types.Signature) []Val {
+		d := ex.newObj()
+		st.heap.storeLeaf(Fld(d, digestStreamField), StrLit(""))
+		return []Val{d}
+	})
+	regEff("(*"+xx[:len(xx)-1]+".Digest).WriteString", "appends the string to the digest's stream; returns (len, nil)", func(ex *Exec, a []Val, st *State, sig *types.Signature) []Val {
+		d, s := tm(a[0]), tm(a[1])
+		cur := st.heap.loadLeaf(Fld(d, digestStreamField), SStr)
+		st.heap.storeLeaf(Fld(d, digestStreamField), SConcat(cur, s))
+		return []Val{ex.slen(s), nilIface()}
+	})
+	regEff("(*"+xx[:len(xx)-1]+".Digest).Write", "appends the bytes to the digest's stream; returns (len, nil)", func(ex *Exec, a []Val, st *State, sig *types.Signature) []Val {
+		d, b := tm(a[0]), a[1].(*Agg)
+		cur := st.heap.loadLeaf(Fld(d, digestStreamField), SStr)
+		bs := UF("bytes.asString", SStr, st.heap.ver, tm(b.F[0]), tm(b.F[1]), tm(b.F[2]))
+		st.heap.storeLeaf(Fld(d, digestStreamField), SConcat(cur, bs))
+		return []Val{tm(b.F[2]), nilIface()}
+	})
+	reg("(*"+xx[:len(xx)-1]+".Digest).Sum64", "uninterpreted function of the stream written so far (hash collisions are ignored)", func(ex *Exec, a []Val, st *State, sig *types.Signature) []Val {
+		d := tm(a[0])
+		r := UF("xxhash.sum64", SInt, st.heap.loadLeaf(Fld(d, digestStreamField), SStr))
+		if !r.hasBound {
+			ex.fact(nil, Ge(r, IntT(0)))
+		}
+		return []Val{r}
+	})
+	// ---- slices.SortFunc: afterwards adjacent elements are ordered by the comparator (permutation not modelled)
+	regEff("slices.SortFunc", "elements are permuted so that cmp(s[j], s[j+1]) <= 0 for adjacent elements; only this ordering fact is assumed, contents are otherwise arbitrary", func(ex *Exec, a []Val, st *State, sig *types.Signature) []Val {
+		sl := a[0].(*Agg)
+		st0 := sig.Params().At(0).Type().Underlying().(*types.Slice)
+		ex.havocElems(st, tm(sl.F[0]), st0.Elem())
+		if fv, ok := a[1].(*FuncVal); ok {
+			// j ranges over backing-array indices (no arithmetic inside the element addresses)
+			j := BoundVar("sj", SInt)
+			off := tm(sl.F[1])
+			x := st.heap.load(Elt(tm(sl.F[0]), j), st0.Elem(), nil)
+			y := st.heap.load(Elt(tm(sl.F[0]), Add(j, IntT(1))), st0.Elem(), nil)
+			ex.spec++
+			r := ex.inlineCall(nil, st.clone(), fv.Fn, []Val{x, y}, fv.Bindings)
+			ex.spec--
+			ex.fact(st, Forall([]*Term{j}, Implies(And(Le(off, j), Lt(Add(j, IntT(1)), Add(off, tm(sl.F[2])))), Le(tm(r[0]), IntT(0)))))
+		}
+		return nil
+	})
 	// ---- prometheus / humanize / time parsing: uninterpreted (value, err) pairs
 	parse2 := func(name string, vs string) modelFn {
 		return func(ex *Exec, a []Val, st *State, sig *types.Signature) []Val {
@@ -343,6 +415,10 @@ func (ex *Exec) ghostByName(pkgPath, name string) *GhostDecl {
 // (keyed by the flattened argument when unary, a single cell when nullary).
 func (ex *Exec) ghostApply(st *State, g *GhostDecl, args []*Term, rt types.Type) Val {
 	rs := leafSort(rt)
+	if g.Name == "digestStream" && len(args) == 1 {
+		// the byte stream written so far to an xxhash digest (state of the xxhash model)
+		return st.heap.loadLeaf(Fld(args[0], digestStreamField), SStr)
+	}
 	if !g.Heap {
 		return UF("ghost@"+g.Name, rs, args...)
 	}
